@@ -546,13 +546,20 @@ def monitorOp (mu : Mon) (prev : Args) (toks : List String) (implOk : Bool) (out
     let fmig := match mu.legacyVer with
       | some (x, y, z) =>
         if kind == "migrate" && implOk && untouched && (x < 0 + 1 && (y < 13 || (y == 13 && z == 0))) then
-          pairs.filterMap fun k =>
+          (pairs.filterMap fun k =>
             let o := obsOut cur k.1 k.2
             let h := ((obsHold cur).find? (fun p => p.1 == k.2)).map (·.2)
             match h with
             | some hv => if o == hv then none else
                 some (mk "C12" "C12/migrate-not-reconciled" s!"chan={k.1} denom={k.2} outstanding={o} holdings={hv}")
-            | none => none
+            | none => none) ++
+          -- … which can only be true of ONE channel per denomination: the tokens held are booked once
+          ((pairs.map (·.2)).eraseDups.filterMap fun d =>
+            let tot := (pairs.filter (·.2 == d)).foldl (fun acc k => acc + obsOut cur k.1 k.2) 0
+            match ((obsHold cur).find? (fun p => p.1 == d)).map (·.2) with
+            | some hv => if tot ≤ hv then none else
+                some (mk "C12" "C12/migrate-booked-twice" s!"denom={d} outstanding over all channels={tot} holdings={hv}")
+            | none => none)
         else []
       | none => []
     -- a successful migrate stores the current version: later migrates are not upgrades from a legacy layout
